@@ -27,7 +27,7 @@ func init() {
 		Real: []string{"pkg/trait/electricpb Model, ModelServer (ElectricApi, MemorySettingsApi)", "pkg/resource", "internal/minibus"}, Stub: []string{"caller tasks", "injected clock.Clock", "seeded rand"}})
 	// the same workload judged for C02: operations that span the model's two resources (find the normal mode in one,
 	// make it active in the other) are one atomic step for every concurrent caller
-	register(&Scenario{Name: "lin-elec", Prop: "C02", Doc: "the electric model's workload (2-4 callers issuing create/add/update/delete/change-active/clear-active at the same time, parked inside the underlying Value/Collection operations) judged for atomicity across the model's two resources: whatever the others do, a clear-active selects and returns a mode that is marked normal, and a delete with allow-missing succeeds",
+	register(&Scenario{Name: "lin-elec", Prop: "C02", Doc: "the electric model's workload (2-4 callers issuing create/add/update/delete/change-active/clear-active at the same time, parked inside the underlying Value/Collection operations) judged for atomicity across the model's two resources: whatever the others do, a clear-active selects and returns a mode that is marked normal, and a delete with allow-missing succeeds; and what no one-at-a-time order of the calls can produce - an active mode that was deleted, two normal modes - does not come out of concurrent calls either",
 		Run:  elecRun,
 		Real: []string{"pkg/trait/electricpb Model, ModelServer", "pkg/resource"}, Stub: []string{"caller tasks", "injected clock.Clock", "seeded rand"}})
 }
